@@ -594,6 +594,11 @@ class TrFsm:
 
     def if_(self, s, env):
         test = s.test
+        # `if not isinstance(NAME, Goto): A else: B`  ==  `if isinstance(NAME, Goto): B else: A`
+        if (isinstance(test, ast.UnaryOp) and isinstance(test.op, ast.Not) and isinstance(test.operand, ast.Call)
+                and self.path(test.operand.func) == 'isinstance' and len(test.operand.args) == 2
+                and self.path(test.operand.args[1]) == 'Goto'):
+            return self.if_(ast.If(test=test.operand, body=s.orelse or [ast.Pass()], orelse=s.body), env)
         # isinstance(NAME, Goto): narrowing, NAME.state is the matched value
         if (isinstance(test, ast.Call) and self.path(test.func) == 'isinstance' and len(test.args) == 2
                 and self.path(test.args[1]) == 'Goto' and isinstance(test.args[0], ast.Name)):
